@@ -29,6 +29,8 @@ STRENGTHENED = {
     "C01e": "one mineral in six now starts from a texture written as 0/+-1 direction-cosine matrices and handed over as an integer-typed array (`hist.mineral_spec`, layout `int`); steady velocity gradients with integral entries are likewise handed over with integer dtype",
     "C07e": "the exhaustive ordinal grid now runs over phase ordinals -2..3 and fabric ordinals -7..7 (negative ordinals wrap around as array indices), and the history-level `bad_fabric` failure draws from mismatched, negative and too-large ordinals",
     "C08e": "minerals now also reach the update restored from an NPZ checkpoint (before the first or after the first update; enumeration fields come back as numpy integers) or with plain-integer phase/fabric/regime ordinals, and the restored run must equal the in-memory run",
+    "C11e": "one case in four of `tensor_maps` and `rotation_law` holds whole numbers and is handed over with integer dtype (Voigt matrix and 4th-order tensor alike); C10, C12 and C13 got the same variant (whole-GPa stiffness tables, whole-number shears)",
+    "C14e": "new oracle `permutation_large`: 1000..2000 grains (sizes around 2^19, 1e6 and 2^20 pairs planted) with a texture that is inhomogeneous along the grain list (random part followed by a tight cluster), reversed and shuffled; the harness no longer spends the evaluation of shards 2..N on Hypothesis' all-minimal first example, which is the same in every shard",
     "C20": "new differential part of `point_density`: raw estimates are rebuilt from the documented counting grid with pydrex's kernel functions, normalised, clipped and compared (1e-9)",
 }
 
